@@ -106,6 +106,8 @@ type FV struct {
 	topFrame       *Frame
 	curFrame       *Frame
 	sections       map[string]int // lock field -> critical sections entered by the top function on its receiver
+	serialGroups   map[string]map[string]bool // lock field -> acquisitions of a serializing lock during which sections of it were entered
+	serialAcq      map[string]string          // held-key of a serializing lock -> position of its last acquisition
 	subCtr         int
 	axioms         []axiomTerm
 	axMu           sync.Mutex
@@ -794,7 +796,7 @@ func (v *FV) preserveAcrossHavocIn(prev, s *Snapshot, loopBody map[*ssa.BasicBlo
 		// objects are never un-allocated
 		v.emit(fmt.Sprintf("(assert (>= %s %s))", v.topOf(s), v.topOf(prev)))
 	}
-	for _, g := range []string{"CALLS", "ARGNN", "ARGV", "LOCKED", "CLOCK", "CALLS$n", "ARGNN$n", "ARGV$n", "LOCKED$n"} {
+	for _, g := range []string{"CALLS", "ARGNN", "ARGV", "LOCKED", "CLOCK", "STAMP", "RESNIL", "CALLS$n", "ARGNN$n", "ARGV$n", "LOCKED$n", "STAMP$n", "RESNIL$n"} {
 		if _, ok := v.arrays[g]; ok {
 			s.over[g] = v.heapGet(prev, g)
 		}
